@@ -110,7 +110,7 @@ LEMMAS = [json_number_lemmas("C02")]
 VERIFIED_CALLEES = ("adapt_typehints",)
 LEVEL = "other"
 TECHNIQUE = "contract-based deductive verification (VCs from the real AST of the Union arm, recursion by contract) + bounded run-time contract checking against an independent structural validator"
-LEVEL_TEXT = 'Proved on the real Union arm of adapt_typehints, for 2-3 members in every accept/reject pattern and both trial orders: a Union is accepted exactly when some member accepts (or the documented string fall-back applies) and the returned value is one produced by an accepting member, never an exception object (this refuted the shipped code; fixed). Bounded only: conformance and compositional acceptance for the whole type grammar (323 types incl. every Union permutation x value sets, independent structural validator).'
+LEVEL_TEXT = 'Verified on the real arms of adapt_typehints (block units, recursive calls by contract = structural induction): Union (2-3 members, every accept/reject pattern, both trial orders: accepted exactly when some member accepts or the documented string fall-back applies; the first accepting member in the sorted order decides; never an exception object - this refuted the shipped code; fixed), leaf types, Tuple/Set, List (incl. `key+` append and dotted sub-options of the last item), Dict, Literal, Enum, registered types, dataclass-like and class types; the dispatch of adapt_typehints sends each of 22 kinds of type hint to its arm; sort_subtypes_for_union never loses or duplicates a member; _check_type, _check_value_key and _apply_actions make every given value meet the action declared for its key (this found that keys equal to Namespace method names bypassed their actions; fixed). Bounded only: conformance and compositional acceptance for the whole type grammar end to end (323 types incl. every Union permutation x value sets, independent structural validator).'
 LEVEL_NOTE = "under construction"
 EXPLANATION = "under construction"
 ASSUMPTIONS = []
